@@ -143,18 +143,21 @@ func validatePolyNotInsidePoly(p1, p2 indexedLines) error {
 	for j := range p2.lines {
 		// Find intersection points.
 		var pts []XY
-		p1.tree.RangeSearch(p2.lines[j].box(), func(i int) error {
+		if err := p1.tree.RangeSearch(p2.lines[j].box(), func(i int) error {
 			inter := p1.lines[i].intersectLine(p2.lines[j])
 			if inter.empty {
 				return nil
 			}
 			if inter.ptA != inter.ptB {
-				panic(fmt.Sprintf("already established that boundaries only "+
-					"intersect at points, but got: %v", inter))
+				// Not a single well-defined point (e.g. the crossing point
+				// overflowed to NaN for coordinates of extreme magnitude).
+				return violatePolysMultiTouch.errAtXY(p2.lines[j].a)
 			}
 			pts = append(pts, inter.ptA)
 			return nil
-		})
+		}); err != nil {
+			return err
+		}
 		if len(pts) == 0 {
 			continue
 		}
